@@ -228,6 +228,29 @@ var transforms = []transform{
 	between("extern-funcs", func(tag string, i int, rng *rand.Rand) []string {
 		return []string{"", fmt.Sprintf("func verifExtern%s%d()", tag, i), ""}
 	}),
+	{"reverse-funcs", func(s *split, tag string, rng *rand.Rand) *emitted {
+		// every pair of plain functions changes its relative order (a random permutation may keep a given pair)
+		var slots []int
+		for i, c := range s.chunks {
+			if c.plain {
+				slots = append(slots, i)
+			}
+		}
+		order := make([]int, len(s.chunks))
+		for i := range order {
+			order[i] = i
+		}
+		for k, slot := range slots {
+			order[slot] = slots[len(slots)-1-k]
+		}
+		e := newEmitter()
+		e.orig(s.header, 1)
+		for _, ci := range order {
+			e.orig(s.chunks[ci].lines, s.chunks[ci].start)
+		}
+		e.orig(s.tail, s.tailAt)
+		return e.done()
+	}},
 	{"permute-funcs", func(s *split, tag string, rng *rand.Rand) *emitted {
 		var slots []int
 		for i, c := range s.chunks {
@@ -421,7 +444,7 @@ func Run(tier string, seed int64, outDir string) *common.Meta {
 	typeErrs := map[string]int{}
 	for round := 0; round < rounds; round++ {
 		for ti, tr := range transforms {
-			if round > 0 && (tr.name == "identity" || tr.name == "append-decls") {
+			if round > 0 && (tr.name == "identity" || tr.name == "append-decls" || tr.name == "reverse-funcs") {
 				continue
 			}
 			rng := common.NewRand(seed+int64(round)*7919, "c13-"+tr.name)
@@ -589,7 +612,7 @@ func Run(tier string, seed int64, outDir string) *common.Meta {
 		em := transforms[3].fn(fb.split, "S", common.NewRand(seed, "sample"))
 		meta.AddSample(map[string]interface{}{"file": fb.f.ID(), "transform": transforms[3].name, "transformed_head": clipStr(string(em.src), 700)})
 	}
-	meta.Rule = "every file of every example package x transforms {append-decls, blank-lines, dummy-decls, extern-funcs, permute-funcs} (identity = harness self-check), loaded through go/packages overlays (must type-check as well as the original); " +
+	meta.Rule = "every file of every example package x transforms {append-decls, blank-lines, dummy-decls, extern-funcs, reverse-funcs, permute-funcs} (identity = harness self-check), loaded through go/packages overlays (must type-check as well as the original); " +
 		"ALL registered checkers are run on each transformed file and their warnings, mapped back through the chunk line map, must equal the original file's multiset (line, column, text) with none on padding; " +
 		"for the owner checker the travelled /*! */ expectations are additionally re-evaluated with the suite's own algorithm; evaluations = (transformed file, checker) comparisons; distinct_nontrivial = those with at least one warning"
 	return meta
